@@ -23,6 +23,20 @@ func (node *tagCycleNode) next(ctx *ExecutionContext) IEvaluator {
 	return node.args[idx%len(node.args)]
 }
 
+// writeValue prints a cycle value the way a variable would be printed (escaped
+// if autoescape is on and the argument has not been marked as safe).
+func (node *tagCycleNode) writeValue(ctx *ExecutionContext, writer TemplateWriter, item IEvaluator, val *Value) *Error {
+	if ctx.Autoescape && !item.FilterApplied("safe") && !val.safe && val.needsEscape() {
+		var err *Error
+		val, err = ApplyFilter("escape", val, nil)
+		if err != nil {
+			return err
+		}
+	}
+	writer.WriteString(val.String())
+	return nil
+}
+
 func (cv *tagCycleValue) String() string {
 	return cv.value.String()
 }
@@ -56,7 +70,9 @@ func (node *tagCycleNode) Execute(ctx *ExecutionContext, writer TemplateWriter) 
 		t.value = val
 
 		if !t.node.silent {
-			writer.WriteString(val.String())
+			if err := t.node.writeValue(ctx, writer, item, val); err != nil {
+				return err
+			}
 		}
 	} else {
 		// Regular call
@@ -70,7 +86,9 @@ func (node *tagCycleNode) Execute(ctx *ExecutionContext, writer TemplateWriter) 
 			ctx.Private[node.asName] = cycleValue
 		}
 		if !node.silent {
-			writer.WriteString(val.String())
+			if err := node.writeValue(ctx, writer, item, val); err != nil {
+				return err
+			}
 		}
 	}
 
